@@ -289,6 +289,10 @@ func runVdrProperty(c *Ctx, prop string) {
 	for k, v := range stats {
 		r.Histogram["gen-"+k] = v
 	}
+	// ---- Tier B: real processes, real goroutine timing
+	if os.Getenv("VDR_NO_TIERB") == "" {
+		vdrTierB(c, prop)
+	}
 	// ---- model correspondence
 	if len(checks) > 0 && c.Drv != nil {
 		reqs := make([][]string, len(checks))
